@@ -1,6 +1,7 @@
 #!/bin/bash
 # seed_matrix.sh [seed...]: run each seeded change against the check of the property it breaks, in a scratch
-# worktree of /repo (so /repo itself is never modified); writes /tmp/seed_matrix.log
+# worktree of /repo (so /repo itself is never modified); writes /tmp/seed_matrix.log.  VERIF_FAILFAST=1 (default
+# here): stop a check at its first failing obligation (set VERIF_FAILFAST= for complete runs)
 WT=/tmp/repo_seedmx
 cd /verif
 git -C /repo worktree remove --force $WT 2>/dev/null
@@ -9,7 +10,7 @@ SEEDS="$@"; [ -z "$SEEDS" ] && SEEDS=$(ls seeded)
 for S in $SEEDS; do
   P=${S:0:3}
   git -C $WT checkout -q -- . ; git -C $WT apply /verif/seeded/$S/patch.diff || { echo "seed=$S APPLY-FAILED"; continue; }
-  VERIF_REPO=$WT timeout 3000 ./check $P --no-evidence > /tmp/seedmx_$S.log 2>&1; rc=$?
+  VERIF_FAILFAST=${VERIF_FAILFAST-1} VERIF_REPO=$WT timeout 3000 ./check $P --no-evidence > /tmp/seedmx_$S.log 2>&1; rc=$?
   echo "seed=$S check=$P rc=$rc violations=$(grep -c '^VIOLATION' /tmp/seedmx_$S.log) harness_errors=$(grep -c HARNESS-ERROR /tmp/seedmx_$S.log) | $(tail -1 /tmp/seedmx_$S.log)"
 done
 git -C /repo worktree remove --force $WT
